@@ -605,10 +605,107 @@ class Directed(Scenario):
         for _ in range(r.randrange(0, 3)):
             self.do(r.choice(["vs read 10000", "vs flush", "vs shutdown"]))
 
+    def sub_rto_resend_then_close(self):
+        """D26's situation: segments are being re-sent one by one after an RTO (each re-send sets `seq_nr` back) when
+        the application closes - by dropping both halves, or by shutdown() after a cumulative ACK that covers the
+        originals, which were only delayed."""
+        r = self.r
+        self.start(True, "nagle=0" + r.choice(["", " mtu=576", " retx=4"]))
+        self.do("vs write 500")
+        self.do("vs poll")
+        self.peer_acks()
+        self.do("vs poll")
+        n, size = r.randrange(2, 5), r.choice([300, 510, 510])
+        first = {}
+        self.drop_rule = lambda d, cnt: d["type"] == 0 and cnt == 1 and first.setdefault(d["seq"], True)   # first copies lost / delayed
+        for _ in range(n):
+            self.do(f"vs write {size}")
+            self.do("vs poll")
+        delayed = dict(self.seen_count)
+        self.drop_rule = None
+        for _ in range(r.randrange(1, 3)):
+            self.to_next_timer(jitter=False)           # RTO: the first one is re-sent
+            self.peer_acks(wnd=r.choice([600, 600, 1 << 20]))
+            self.do("vs poll")                         # the next one is re-sent
+        how = r.choice(["drop", "drop", "shutdown_after_full_ack", "shutdown_after_full_ack", "remote_fin"])
+        if how == "drop":
+            self.do("vs dropw")
+            self.do("vs dropr")
+            self.do("vs poll")
+        elif how == "shutdown_after_full_ack":
+            for (ty, seq), _c in delayed.items():      # the delayed originals arrive after all
+                if ty == 0:
+                    self.got.setdefault(seq, size)
+            while (self.peer_ack + 1) % 65536 in self.got:
+                self.peer_ack = (self.peer_ack + 1) % 65536
+            self.peer_acks()
+            self.do("vs poll")
+            self.do("vs shutdown")
+            self.do("vs poll")
+        else:
+            self.inject(1, seq=self.peer_next)
+            self.do("vs poll")
+        for _ in range(r.randrange(2, 7)):
+            if self.dead:
+                break
+            if r.random() < 0.6:
+                self.peer_acks()
+                self.do("vs poll")
+            else:
+                self.to_next_timer()
+        if self.our_fin_seq is not None and not self.dead:
+            self.inject(2, ack=self.our_fin_seq)
+            self.do("vs poll")
+        for _ in range(r.randrange(0, 3)):
+            self.do(r.choice(["vs shutdown", "vs flush"]))
+
+    def sub_probe_last_then_close(self):
+        """D27's situation: the last written bytes form a size probe, the path does not carry it, and the application
+        closes (drops both halves / the remote closes) while the probe is unacknowledged."""
+        r = self.r
+        self.start(True, f"mtu={r.choice([1000, 1000, 1500])}" + r.choice(["", " probe_retx=0", " probe_retx=0", " nagle=0"]))
+        self.drop_rule = lambda d, n: d["type"] == 0 and d["plen"] > 528      # the path does not carry the probes
+        self.do("vs write 100")
+        self.do("vs poll")
+        self.do("vs write 600")
+        self.do("vs poll")
+        self.do("vs poll")
+        self.peer_acks()
+        self.do("vs poll")
+        self.peer_acks()
+        self.do("vs poll")
+        self.do(f"vs write {r.choice([741, 741, 700, 991, 1269])}")
+        self.do("vs poll")
+        how = r.choice(["drop", "drop", "drop", "remote_fin", "shutdown"])
+        if how == "drop":
+            self.do("vs dropw")
+            self.do("vs dropr")
+        elif how == "remote_fin":
+            self.inject(1, seq=self.peer_next)
+        else:
+            self.do("vs shutdown")
+        self.do("vs poll")
+        for _ in range(r.randrange(3, 12)):
+            if self.dead:
+                break
+            if r.random() < 0.5:
+                self.peer_acks()
+                self.do("vs poll")
+            else:
+                self.to_next_timer(jitter=False)
+        if self.our_fin_seq is not None and not self.dead and (self.peer_ack + 1) % 65536 == self.our_fin_seq:
+            self.inject(2, ack=self.our_fin_seq)
+            self.do("vs poll")
+
     def fam_teardown(self):
         r = self.r
-        if r.random() < 0.1:
+        k = r.random()
+        if k < 0.1:
             return self.sub_probe_then_remote_fin()
+        if k < 0.2:
+            return self.sub_rto_resend_then_close()
+        if k < 0.3:
+            return self.sub_probe_last_then_close()
         outgoing = r.random() < 0.7
         self.start(outgoing, r.choice(["", "wla=0", "inact=2000000000", "retx=2"]))
         target = r.choice(["est", "fw1", "fw1", "fw2", "la", "synack", "fw1_data_out"])
